@@ -49,8 +49,7 @@ def handle : List String → Option String
     -- femio: the elemental adjacency ignores order1_only in calculate_n_hop_adj
     let (n, A) := adjOf (mkG (o1 && mode = 1) m) mode
     let R := nHopM n A.get hops
-    let f (i j : Nat) : Int := (if R.get i j then 1 else 0) - (if sl then 0 else if i = j then 1 else 0)
-    some s!"ok {n} {showTriples (triples n f)}"
+    some s!"ok {n} {showTriples (triples n (nHopEntry R sl))}"
   | "c13.lap" :: rest => do
     let (mode, o1, m) ← run (do let md ← modeP; let o ← bool; let m ← meshP; pure (md, o, m)) rest
     if o1 && !supportedO1 m.elemBlocks then some "err value_error" else
